@@ -146,6 +146,10 @@ fn type_code(t: HideHeavenStemType) -> i64 {
   }
 }
 
+thread_local! {
+  static THREE: std::cell::Cell<(i64, i64)> = std::cell::Cell::new((0, 0));
+}
+
 impl C15 {
   fn eval_day(&self, env: &Env, out: &mut Out, case: &Case) {
     let c = cal();
@@ -186,6 +190,8 @@ impl C15 {
       let ph = s.get_phenology_day();
       let hh = s.get_hide_heaven_stem_day();
       let hs = hh.get_hide_heaven_stem();
+      // the pentad's position inside its term (first / second / last of the three) as the library names it
+      THREE.with(|t| t.set((ph.get_phenology().get_three_phenology().get_index() as i64, ph.get_phenology().get_index() as i64)));
       Series { nine, dog, plum, pentad: (ph.get_phenology().get_index() as i64, ph.get_day_index() as i64), stem: (type_code(hs.get_type()), hs.get_heaven_stem().get_index() as i64, hh.get_day_index() as i64) }
     });
     let got = match r {
@@ -195,6 +201,10 @@ impl C15 {
         return;
       }
     };
+    let (three, pidx) = THREE.with(|t| t.get());
+    if three != pidx % 3 {
+      out.fail(env, viol("day", "pentad_position_in_term", case, &k, c.fmt(i), format!("pentad {} is number {} of its term", pidx, pidx % 3), three.to_string()));
+    }
     if out.wants_sample("day", nt) {
       out.sample("day", nt, || json!({"date": c.fmt(i), "nine": got.nine, "dog": got.dog, "plum_rain": got.plum, "pentad": got.pentad, "commanding_stem": {"slot": got.stem.0, "stem": STEMS[got.stem.1 as usize], "day_index": got.stem.2}}));
     }
